@@ -217,12 +217,12 @@ func (c *Cluster) goFlushStore(sCtx signal.Context) {
 			Encoder:     c.Codec,
 		}
 		flush.FlushSync(sCtx, c.CopyState())
-		c.OnChange(func(_ context.Context, change Change) {
+		c.OnChange(func(_ context.Context, _ Change) {
 			select {
 			case <-sCtx.Done():
 				return
 			default:
-				flush.Flush(sCtx, change.State)
+				flush.Flush(sCtx, c.CopyState())
 			}
 		})
 		sCtx.Go(func(ctx context.Context) error {
